@@ -112,7 +112,16 @@ theorem opOK_apply {st st' : State} {op : Op} {r : Res} (hinv : IndexInv st.kv) 
     split_ifs at hk <;> cases hk
     · exact OpOK.misc (Touches.del _ _ (head_keyNotAccepting m)) (by simp)
     · exact OpOK.misc (Touches.set _ _ _ (head_keyNotAccepting m)) (by simp)
-  | cancel id signer =>
+  | setAcceptingCommitments m a signer =>
+    obtain ⟨kv, hk, rfl⟩ := wk h
+    refine ⟨?_, rfl⟩
+    unfold updateAcceptingCommitments at hk
+    split_ifs at hk <;> cases hk
+    · exact OpOK.misc (Touches.set _ _ _ (head_keyAcceptingCommitments m)) (by simp)
+    · exact OpOK.misc (Touches.del _ _ (head_keyAcceptingCommitments m)) (by simp)
+  | cancel id signer up =>
+    simp only [apply] at h
+    split_ifs at h
     obtain ⟨kv, hk, rfl⟩ := wk h
     exact ⟨opOK_of_order (fun hi => inv_cancelOrder hi hk) (touches_cancelOrder hk) (noNew_cancelOrder hk), rfl⟩
   | setExt m id ext signer =>
@@ -138,7 +147,7 @@ theorem opOK_apply {st st' : State} {op : Op} {r : Res} (hinv : IndexInv st.kv) 
   | pay p =>
     obtain ⟨kv, hk, rfl⟩ := wk h
     exact ⟨opOK_of_pay (fun hp => pay_createPayment hp hk) hinv, rfl⟩
-  | payAccept s e t =>
+  | payAccept s e t su tu =>
     obtain ⟨kv, hk, rfl⟩ := wk h
     exact ⟨opOK_of_pay (fun hp => pay_acceptPayment hp hk) hinv, rfl⟩
   | payReject t s e =>
